@@ -633,6 +633,8 @@ SST_TABLES = [
     ("xls::Xls::parse_workbook", ("local", "xfs", "alloc::vec::Vec<u16>"), "xls XF table"),
     ("xls::Xls::parse_workbook", ("local", "defined_names", "alloc::vec::Vec<(alloc::string::String, (core::option::Option<usize>, alloc::string::String))>"), "xls Lbl (defined name) table"),
     ("xlsb::Xlsb::read_workbook", ("local", "defined_names", "alloc::vec::Vec<(alloc::string::String, alloc::string::String)>"), "xlsb BrtName table"),
+    # the table the XTI entries of BrtExternSheet index: one entry per BrtBundleSh record, whatever kind of sheet
+    ("xlsb::Xlsb::read_workbook", ("self", "sheets", "alloc::vec::Vec<(alloc::string::String, alloc::string::String)>"), "xlsb sheets (BrtBundleSh) table; nullskip"),
 ]
 
 MANY = "many"
@@ -642,7 +644,13 @@ def _is_table(e, tab):
     kind, name = tab[0], tab[1]
     fc = field_chain(e)
     if kind == "self":
-        return fc is not None and fc[0] == "self" and fc[1] == [name]
+        if fc is not None and fc[0] == "self" and fc[1] == [name]:
+            return True
+        if len(tab) > 2 and fc is not None and fc[1] == [name]:
+            # the field of a context struct that lends `&mut self.<name>` to helper methods: same name, same type
+            t = (peel(e).get("ty") or "").replace("&mut ", "").replace("&", "")
+            return t == tab[2]
+        return False
     if fc is not None and fc[0] == name and not fc[1]:
         return True
     if len(tab) > 2 and fc is not None and not fc[1]:
@@ -685,6 +693,13 @@ def _count_paths(e, tab, targets):
         c = _count_paths(e["cond"], tab, targets)
         t = _count_paths(e["then"], tab, targets)
         f = _count_paths(e["els"], tab, targets) if e.get("els") is not None else {(0, False)}
+        if "nullskip" in targets:
+            # `if rel_len != 0xFFFF_FFFF { .. }`: the record carries the null marker where its part
+            # relationship should be, so it declares no item; that side counts as a failed item
+            cnd = unwrap(e["cond"])
+            if isinstance(cnd, dict) and cnd.get("k") == "Binary" and cnd.get("op") in ("!=", "==") and \
+                    0xFFFFFFFF in (lit_value(cnd["l"]), lit_value(cnd["r"])):
+                return _seq(c, t if cnd["op"] == "!=" else f)
         return _seq(c, t | f)
     if k == "Match":
         s = _count_paths(e["scrut"], tab, targets)
@@ -775,7 +790,7 @@ def r_sst(ctx, rep, only=None):
                 continue
             scopes[id(sc)] = (sc, desc)
         for sc, desc in scopes.values():
-            counts = {c for c, _ in _count_paths(sc, tab, set())}
+            counts = {c for c, _ in _count_paths(sc, tab, {"nullskip"} if what.endswith("; nullskip") else set())}
             if counts == {1}:
                 rep.holds("R-SST", key, loc(sc), "%s: every completing path through the %s pushes exactly one entry into `%s`" % (what, desc, tab[1]))
             else:
@@ -1321,7 +1336,17 @@ def r_cont(ctx, rep):
                         else:
                             seq.append(("skip", "?"))
         kinds = [s[0] for s in seq]
-        if kinds == ["dbcs", "skip", "skip"] and seq[1][1].startswith("runs*4") and seq[2][1].startswith("ext"):
+        # a success return in front of the skips (an "empty string" fast path) leaves the run / extended blocks unread
+        skips_ = [x for x in walk_k(fn.body, "MethodCall") if x.get("name") == "skip" and (callee(x) or "").endswith("Record::skip")]
+        last_skip = max((loc(x)[1] if isinstance(loc(x), tuple) else x["span"]["l"]) for x in skips_) if skips_ else 0
+        early = []
+        for r_ in walk_k(fn.body, "Ret"):
+            v_ = unwrap(r_.get("e")) if r_.get("e") is not None else None
+            if isinstance(v_, dict) and v_.get("k") == "Call" and (callee(v_) or "").endswith("Result::Ok") and r_["span"]["l"] < last_skip and not r_["span"].get("desugar"):
+                early.append(r_)
+        if early:
+            rep.violation("R-CONT", key, loc(early[0]), "read_rich_extended_string returns Ok before it has skipped the rich-text runs and the extended data: a string that takes this exit (e.g. an empty string carrying formatting runs) leaves its trailing blocks in the stream and the next string header is read out of them")
+        elif kinds == ["dbcs", "skip", "skip"] and seq[1][1].startswith("runs*4") and seq[2][1].startswith("ext"):
             rep.holds("R-CONT", key, loc(fn.raw), "every Ok path runs read_dbcs, then skip(cRun*4), then skip(cbExtRst), unconditionally and in that order")
         else:
             rep.violation("R-CONT", key, loc(fn.raw), "read_rich_extended_string must, unconditionally and in this order, decode the characters, skip the rich-text runs (cRun * 4 bytes) and skip the extended data (cbExtRst bytes); found %s.  A missing or reordered skip makes the next string start inside this string's trailing blocks" % seq)
@@ -1719,12 +1744,15 @@ def r_autodetect(ctx, rep):
             sc = peel(m["scrut"])
             if sc.get("k") != "Call" or (callee(sc) or "") != "xlsx::xml_reader":
                 continue
-            part = lit_value(sc["args"][1]) if len(sc["args"]) > 1 else None
+            from .kit import const_value
+            part = const_value(F, sc["args"][1]) if len(sc["args"]) > 1 else None
             if part not in XLSX_MANDATORY:
                 continue
             for a in m["arms"]:
                 ks, ca = pat_keys(a["pat"])
-                if any(k == ("path", "None") for k in ks):
+                # the `None` arm, or the catch-all next to a `Some(..)` arm (`let Some(xml) = xml_reader(..) else { .. }`)
+                some_sibling = any((pat_variant(b["pat"]) or "").endswith("Option::Some") for b in m["arms"] if b is not a)
+                if any(k == ("path", "None") for k in ks) or (ca and not ks and some_sibling):
                     errs = any((path_def(x) or "").endswith("Result::Err") for x in walk_k(a["body"], "Path"))
                     hits.append((part, errs and always_leaves(a["body"], set()), a))
     key = "xlsx|R-AUTODETECT|mandatory-part"
